@@ -21,9 +21,18 @@ META = {
                   'string_length_in_chars / string_accepted_iff (string limits count code points, not encoded bytes), change_sound / '
                   'change_total / change_eq_accept / change_ok_partial (what a `change` request stores: import, validate against the '
                   'value held, validate once more in the write wrapper), command_argument_ok (what a `do` request hands to the command '
-                  'function), inSetB_sound / inSetB_complete / judgeChange_sound.  The '
+                  'function), call_ofType_sound + call_denotes = call_ok (the conversion-only path __call__ - driver updates, results '
+                  'of commands - returns a value of the type, OfType = the value set with the limits of the numeric leaves left '
+                  'out, that denotes the value handed over, ConvDenotes), inSet_ofType, none_of_no_type / command_none_refused / '
+                  'command_result_ok / command_result_total / command_do_ok / command_do_total (Command.do for EVERY command '
+                  'function: the function is called with the validated argument, its return value is handed back converted to '
+                  'the declared result type or refused - None is no result), shortrepr_total / raiseBad_is_bad (the helper that '
+                  'builds the text of every bad-value error of the scalar types answers for every candidate, whatever repr does), '
+                  'inSetB_sound / inSetB_complete / ofTypeB_sound / judgeChange_sound / judgeResult_sound / judgeConv_sound.  The '
                   'models are tied to frappy/datatypes.py by a correspondence run on the real classes and, for the glue '
-                  '(dispatcher._setParameterValue + write wrapper, Command.do), by `change` and `do` requests to a real SecNode; the Lean monitors are '
+                  '(dispatcher._setParameterValue + write wrapper, Command.do incl. its result conversion), by `change` and `do` requests '
+                  'to a real SecNode and by calls of Command.do with command functions returning every candidate; shortrepr by a '
+                  'text-level correspondence on candidates of every size; the Lean monitors are '
                   '`decide` of the specification Props themselves.',
     'level_note': 'Trusted: Lean kernel + axioms propext/Classical.choice/Quot.sound; the 27 laws of LawfulFloatOps for binary64 (all '
                   'proved for the exact carrier Rat; re-tested on the doubles of every run - a test).  SnapIdem (the one hypothesis '
@@ -32,8 +41,13 @@ META = {
                   'idem clause on every accepted value; GridExact / GridAll are the older per-tree forms.  validate_idem_statement '
                   '(every value of the declared set is a fixed point) is false for binary64 for scaled types whose limit has an '
                   'overflowing grid value (they refuse every value).  lazy_number_validation stays False.  Lone-surrogate strings and '
-                  'previous values of a wrong kind are judged for totality only.  Previous values are values __call__ accepts '
-                  '(validate-accepted ones and ones pushed outside the limits).',
+                  'previous values of a wrong kind are judged for totality only, as are candidates that cannot travel as JSON '
+                  'text (ints beyond the str-conversion digit limit, values nested beyond the recursion limit).  Previous values '
+                  'are values __call__ accepts (validate-accepted ones and ones pushed outside the limits).  The conversion-only '
+                  'path is held to OfType + ConvDenotes + totality + idempotence, NOT to the numeric limits (by design of frappy: '
+                  'a value reported by the hardware is converted, not range-checked).  The error path of the model does not '
+                  'contain the text construction: conv answers Err.wrongType directly; raiseBad_is_bad is a separate statement '
+                  'about the helper, tied to the code by the helper stream and by the size stream on the datatype methods.',
     'trusted': [
         'binary64 satisfies the 27 laws of LawfulFloatOps (FrappyModel/Base/Num.lean): order laws, monotonicity of x/scale, k*scale, '
         'round(), x + 0.0, tolerance band; proved for the Rat carrier, re-tested on the doubles of each run',
@@ -49,10 +63,13 @@ META = {
         'frappy.lib.enum.Enum (dict keyed by names and values; EnumMember.__eq__/__hash__)',
         'frappy.properties.HasProperties.checkProperties (DType.WF is what it enforces)',
         'Parameter / Module construction, Dispatcher.handle_request, announceUpdate, export_value of the reply (the `change` stream '
-        'observes the value stored and the error class only; the model changeValue covers import + validate + validate)',
+        'observes the value stored and the error class only; the model changeValue covers import + validate + validate; the '
+        'result stream observes the return value of Command.do and the class of the reply to the do request)',
+        'repr() of Python values (external call of the model shortrepr: a text or the class of an exception)',
     ],
     'assumptions': ['generalConfig.lazy_number_validation is False (default)',
-                    'change requests: a parameter without write_ method, check_ function or limit parameters; do requests: an argument type that is not a struct at the root',
+                    'change requests: a parameter without write_ method, check_ function or limit parameters; do requests: for a struct at the root the member names are Python identifiers (the function is generated with the signature the decorator demands); '
+                    'command results: commands without argument or with an IntRange(0, 5) argument, the function returns the candidate and raises nothing',
                     'previous is None or a value __call__ returned (it may lie outside the limits)',
                     'dict keys of offered values are strings (struct member names)'],
 }
@@ -141,8 +158,9 @@ def via_get_datatype(dt):
     return get_datatype(json.loads(json.dumps(dt.export_datatype())))
 
 
-def make_cases(rng, tree, per_tree, big):
-    """[(mode, stream, cand, prev)] for one tree (Python values)"""
+def make_cases(rng, tree, per_tree, big, unmodelled=None):
+    """[(mode, stream, cand, prev)] for one tree (Python values); cases whose candidate cannot travel as JSON text are
+    appended to `unmodelled` as recipes (judged for totality only)"""
     cases = []
     nvalid = max(3, per_tree * 4 // 10)
     nsubst = max(4, per_tree * 45 // 100)
@@ -205,6 +223,15 @@ def make_cases(rng, tree, per_tree, big):
         for c in rng.sample(vs, min(len(vs), max(2, per_tree // 10))):
             cases.append((mode, 'shape', c, gen.gen_previous(rng, tree)))
             ns += 1
+    # candidates of unusual size (many members / elements / characters / digits, deep nesting) at every kind of position:
+    # the refusal path (error texts, re-raising wrappers) sees every candidate
+    for mode, base in (valids[:2] if len(valids) > 1 else valids):
+        for path, recipe in gen.size_candidates(rng, base, mode == 'wire', 4, big):
+            if gen.recipe_travels(recipe):
+                cases.append((mode, 'size', gen.subst(base, path, gen.build_big(recipe)), gen.gen_previous(rng, tree)))
+            elif unmodelled is not None and dtcodec.encodable(base):
+                unmodelled.append({'tree': tree, 'mode': 'size', 'base': dtcodec.py_to_json(base), 'path': list(path),
+                                   'recipe': recipe, 'prev': None})
     return cases
 
 
@@ -220,6 +247,39 @@ def surrogate_cases(rng, tree, n):
         p = rng.choice(pos)
         out.append(gen.subst(w, p, rng.choice(['\ud800', 'a\udfffb', '\udc00\ud800'])))
     return out
+
+
+def shortened(v, n=300):
+    """repr for reports, cut in the middle; a value whose repr fails is named by its type"""
+    try:
+        r = repr(v)
+    except Exception as e:
+        return f'<{type(v).__name__}: repr raises {type(e).__name__}>'
+    return r if len(r) <= n else f'{r[:n // 2]} ...({len(r)} chars)... {r[-n // 4:]}'
+
+
+def show_dt(tree):
+    """repr of the real datatype (ScaledInteger.__repr__ fails for limits whose grid index overflows: the tree then)"""
+    try:
+        return repr(dtcodec.tree_to_dt(tree))
+    except Exception:
+        return json.dumps(tree)
+
+
+def eval_size_case(sc):
+    """a candidate given by a recipe (too big to travel as text): outcome classes of import_value (+ validate), validate
+    and __call__ on the real datatype object"""
+    dt = dtcodec.tree_to_dt(sc['tree'])
+    base = dtcodec.json_to_py(sc['base'])
+    cand = gen.subst(base, tuple(sc['path']), gen.build_big(sc['recipe']))
+    outs = []
+    imp = _outcome(lambda: dt.import_value(cand))
+    outs.append(imp)
+    if imp[0] == 'ok':
+        outs.append(_outcome(lambda: dt.validate(imp[1])))
+    outs.append(_outcome(lambda: dt.validate(cand)))
+    outs.append(_outcome(lambda: dt(cand)))
+    return ['bad' if k == 'bad' else {'other': x} if k == 'other' else {'ok': None} for k, x in outs]
 
 
 def collect_numbers(j, fl, it):
@@ -318,12 +378,45 @@ class ChangeNode:
         class M0(Module):
             p = Parameter('parameter under test', datatype=dt, readonly=False)
             got = None
+        from frappy.datatypes import IntRange
+
+        class M1(M0):
+            answer = None       # what the 'hardware' answers: the return value of the command functions below
+            called = 0
+
+            @Command(result=dt.copy())
+            def r(self):
+                """command with a declared result type: the return value is a value from a driver"""
+                self.called += 1
+                return self.answer
+
+            @Command(IntRange(0, 5), result=dt.copy())
+            def q(self, arg):
+                """the same with an argument"""
+                self.called += 1
+                return self.answer
+
+            @Command()
+            def n(self):
+                """no result type declared: the return value is ignored"""
+                self.called += 1
+                return self.answer
         if isinstance(dt, StructOf):
-            # a struct argument is bound to the signature of the function (names, and `optional` REWRITTEN from the
-            # defaults): no command for a struct at the root; structs below the root are covered
-            M = M0
+            # a struct argument is bound to the signature of the function: the parameter names must be the member names and
+            # `optional` is REWRITTEN to the parameters with a default.  The function is built with exactly that signature
+            # (keyword-only parameters, a default for the optional members), so the argument type stays the tree's.
+            names = list(dt.members)
+            if all(k.isidentifier() and k not in ('self', '_NO') for k in names):
+                params = ', '.join(f'{k}=_NO' if k in dt.optional else k for k in names)
+                ns = {'_NO': object()}
+                exec(f'def c(self, *, {params}):\n'
+                     f'    """command under test: records what it is called with"""\n'
+                     f'    self.got = ((), {{k: v for k, v in locals().items() if k != "self" and v is not _NO}})\n', ns)
+                M = type('M', (M1,), {'c': Command(argument=dt.copy())(ns['c'])})
+            else:
+                M = M1
         else:
-            class M(M0):
+            class M(M1):
                 @Command(argument=dt.copy())
                 def c(self, *args, **kwds):
                     """command under test: records what it is called with"""
@@ -336,6 +429,47 @@ class ChangeNode:
         self.tree = dtcodec.dt_to_tree(self.dt)
         self.argtype = self.module.commands['c'].argument if 'c' in self.module.commands else None
         self.argtree = dtcodec.dt_to_tree(self.argtype) if self.argtype is not None else None
+        self.restype = self.module.commands['r'].result
+        self.restree = dtcodec.dt_to_tree(self.restype)
+
+    def update(self, value):
+        """a driver update `announceUpdate('p', value)`: ('ok', value held) | ('bad', None) | ('other', class) - the error is
+        not raised but stored as readerror (the old value is kept)"""
+        from frappy.errors import RangeError, WrongTypeError
+        pobj = self.module.parameters['p']
+        pobj.readerror = None
+        try:
+            self.module.announceUpdate('p', value)
+        except Exception as e:      # announceUpdate itself must not raise for any value (the poller would die)
+            del self.conn.msgs[:]
+            return ('other', type(e).__name__), None
+        del self.conn.msgs[:]
+        err = pobj.readerror
+        if err is None:
+            out = ('ok', pobj.value)
+        elif isinstance(err, (RangeError, WrongTypeError)):
+            out = ('bad', None)
+        else:
+            out = ('other', type(err).__name__)
+        again = _outcome(lambda: self.dt(out[1])) if out[0] == 'ok' else None
+        return out, again
+
+    def result(self, cname, data, answer):
+        """one call of `Command.do` for the command `cname` whose function returns `answer`, directly and as a `do` request:
+        (outcome of Command.do, outcome of converting its value again, class of the reply to the request)"""
+        cobj = self.module.commands[cname]
+        self.module.answer = answer
+        out = _outcome(lambda: cobj.do(self.module, data))
+        again = _outcome(lambda: cobj.result(out[1])) if out[0] == 'ok' and cobj.result else None
+        reply = self.node.request(self.conn, 'do', 'm:_' + cname, data)
+        del self.conn.msgs[:]
+        if reply[0] == 'done':
+            rep = {'ok': None}
+        elif reply[2][0] in ('RangeError', 'WrongType'):
+            rep = 'bad'
+        else:
+            rep = {'other': reply[2][1]}
+        return out, again, rep
 
     def hold(self, value):
         """a driver update: the parameter now holds dt(value) (or keeps its value when __call__ refuses)"""
@@ -388,6 +522,36 @@ def eval_do(case, cn=None):
     return req, out
 
 
+RESULT_COMMANDS = {'r': (False, True), 'q': (True, True), 'n': (False, False)}     # name: (has argument, has result type)
+
+
+def eval_result(case, cn=None):
+    """the candidate of a protocol case with mode 'result' as the return value of a command function (`cmd`: r = no
+    argument, q = argument IntRange(0, 5) given as `data`, n = no result type); returns (request, outcome, reply class)"""
+    if cn is None:
+        cn = ChangeNode(dtcodec.tree_to_dt(case['tree']))
+    cname = case.get('cmd', 'r')
+    hasarg, hasres = RESULT_COMMANDS[cname]
+    out, again, rep = cn.result(cname, case.get('data'), dtcodec.json_to_py(case['cand']))
+    req = {'p': 'C01', 'k': 'result', 'dt': cn.restree if hasres else None,
+           'argdt': {'t': 'int', 'min': 0, 'max': 5} if hasarg else None, 'ret': case['cand'],
+           'out': _enc(out), 'again': _enc(again) if again is not None else None}
+    if case.get('data') is not None:
+        req['data'] = case['data']
+    return req, _enc(out), rep
+
+
+def eval_update(case, cn=None):
+    """the candidate of a protocol case with mode 'update' handed to announceUpdate (a value from a driver): the value the
+    parameter holds afterwards / the class of the read error, against `call` and the monitor of the conversion path"""
+    if cn is None:
+        cn = ChangeNode(dtcodec.tree_to_dt(case['tree']))
+    out, again = cn.update(dtcodec.json_to_py(case['cand']))
+    req = {'p': 'C01', 'k': 'result', 'dt': cn.tree, 'argdt': None, 'ret': case['cand'],
+           'out': _enc(out), 'again': _enc(again) if again is not None else None}
+    return req, _enc(out)
+
+
 def eval_change(case, cn=None):
     """one `change` request for a protocol case with mode 'node' (prev = the value held); returns (request, outcome)"""
     dt = dtcodec.tree_to_dt(case['tree'])
@@ -410,13 +574,18 @@ def node_stream(ctx, res, cases, ntrees):
     """the wire cases of `ntrees` trees sent to a real node as `change` requests (the value stored / the error class
     against the model `changeValue`) and as `do` requests (the argument the command function received against
     `acceptWire dt j none`), both judged by the Lean monitor `judgeChange`"""
-    by_tree = {}
+    by_tree, results_by_tree = {}, {}
     for c, stream in cases:
-        if c['mode'] == 'wire' and not c.get('via_get_datatype'):
-            by_tree.setdefault(json.dumps(c['tree'], sort_keys=True), []).append(c)
+        if c.get('via_get_datatype'):
+            continue
+        key = json.dumps(c['tree'], sort_keys=True)
+        if c['mode'] == 'wire':
+            by_tree.setdefault(key, []).append(c)
+        # a value from a driver at the result position of a command: every candidate of the tree, Python-side and JSON-like
+        results_by_tree.setdefault(key, []).append(c)
     keys = sorted(by_tree)
     ctx.rng.shuffle(keys)
-    reqs, meta, histories = [], [], []
+    reqs, meta, histories, replies = [], [], [], []
     for key in keys[:ntrees]:
         group = by_tree[key]
         try:
@@ -440,6 +609,25 @@ def node_stream(ctx, res, cases, ntrees):
                 req, out = eval_do(c, cn)
                 reqs.append(req)
                 meta.append(({'tree': c['tree'], 'mode': 'do', 'cand': c['cand'], 'prev': None}, out))
+        # the candidates as return values of command functions (`Command.do`: result conversion)
+        answers = list(results_by_tree.get(key, []))
+        answers += [{'cand': dtcodec.py_to_json(x)} for x in gen.NO_ANSWER] + \
+            [{'cand': dtcodec.py_to_json(gen.build_big(rec))} for rec in gen.big_recipes(ctx.rng, False)[:6] if gen.recipe_travels(rec)]
+        for i, c in enumerate(answers):
+            cmd = 'r' if i % 4 < 2 else 'q' if i % 4 == 2 else 'n'
+            data = None if cmd != 'q' else 7 if i % 24 == 2 else i % 6
+            rc = {'tree': cn.restree, 'mode': 'result', 'cand': c['cand'], 'prev': None, 'cmd': cmd, 'data': data}
+            req, out, rep = eval_result(rc, cn)
+            reqs.append(req)
+            meta.append((rc, out))
+            replies.append((rc, rep))
+        # ... and as driver updates of the parameter (announceUpdate converts with __call__; refused: the old value is kept)
+        for c in answers:
+            uc = {'tree': cn.tree, 'mode': 'update', 'cand': c['cand'], 'prev': None}
+            req, out = eval_update(uc, cn)
+            events.append({'u': c['cand']})
+            reqs.append(req)
+            meta.append((uc, out))
         # the whole history of this parameter (driver updates and change requests, accepted or refused) against `holdRun`
         if dtcodec.encodable(held0) and dtcodec.encodable(cn.held):
             histories.append(({'tree': cn.tree, 'held0': dtcodec.py_to_json(held0), 'events': events},
@@ -458,8 +646,12 @@ def node_stream(ctx, res, cases, ntrees):
             raise RuntimeError(f'driver error {ans} on {json.dumps(nc)[:400]}')
         res.evaluations += 1
         res.traces += 1
-        res.count('stream=node(change request)' if nc['mode'] == 'node' else 'stream=node(do request)')
-        res.count(('node.change=' if nc['mode'] == 'node' else 'node.do=') + out_class(out))
+        res.count({'node': 'stream=node(change request)', 'do': 'stream=node(do request)',
+                   'result': 'stream=node(command result)', 'update': 'stream=node(driver update)'}[nc['mode']])
+        res.count({'node': 'node.change=', 'do': 'node.do=', 'result': 'node.result=' + nc.get('cmd', '') + ':',
+                   'update': 'node.update='}[nc['mode']] + out_class(out))
+        if nc['mode'] == 'update':      # same model and monitor as a command result (`call`): named for what it is
+            ans = dict(ans, judge=[cl.replace(':result', ':update') for cl in ans['judge']])
         if out_class(out) == 'ok':
             res.nontriv(nc)
         if not ans['wf']:
@@ -469,12 +661,96 @@ def node_stream(ctx, res, cases, ntrees):
         for clause in ans['judge']:
             res.violations.append({'sig': 'C01:' + clause + ':' + nc['tree']['t'] +
                                           (':' + out['other'] if clause.startswith('total') else ''),
-                                   'what': f'{clause}: ' + (f'change request on a parameter of type {dtcodec.tree_to_dt(nc["tree"])!r} holding '
-                                                            f'{dtcodec.json_to_py(nc["prev"])!r}' if nc['mode'] == 'node' else
-                                                            f'do request on a command with argument type {dtcodec.tree_to_dt(nc["tree"])!r}') +
-                                           f', data {dtcodec.json_to_py(nc["cand"])!r}: '
+                                   'what': f'{clause}: ' + (f'change request on a parameter of type {show_dt(nc["tree"])} holding '
+                                                            f'{shortened(dtcodec.json_to_py(nc["prev"]))}' if nc['mode'] == 'node' else
+                                                            f'driver update announceUpdate of a parameter of type {show_dt(nc["tree"])} with'
+                                                            if nc['mode'] == 'update' else
+                                                            f'Command.do of a command ' +
+                                                            (f'with result type {show_dt(nc["tree"])}' if RESULT_COMMANDS[nc['cmd']][1]
+                                                             else 'without result type') +
+                                                            (f' (argument {nc["data"]!r})' if nc.get('data') is not None else '') +
+                                                            ' whose function returns' if nc['mode'] == 'result' else
+                                                            f'do request on a command with argument type {show_dt(nc["tree"])}') +
+                                           (', data ' if nc['mode'] not in ('result', 'update') else ' ') + f'{shortened(dtcodec.json_to_py(nc["cand"]))}: '
                                            f'{json.dumps(out) if not (isinstance(out, dict) and "ok" in out) else repr(dtcodec.json_to_py(out["ok"]))}',
                                    'case': nc, 'detail': {'clause': clause}})
+
+
+    # the replies to the `do` requests of the result stream (after export_value): outcome classes only
+    rreqs = [{'p': 'C01', 'k': 'total', 'outs': [rep]} for _, rep in replies]
+    for (rc, rep), ans in zip(replies, ctx.driver.batch(rreqs)):
+        res.evaluations += 1
+        res.count('node.result.reply=' + out_class(rep))
+        if ans.get('judge'):
+            res.violations.append({'sig': 'C01:total:do-reply:' + rc['tree']['t'] + ':' + rep['other'],
+                                   'what': f'total:do-reply: do request on a command with result type {show_dt(rc["tree"])} whose '
+                                           f'function returns {shortened(dtcodec.json_to_py(rc["cand"]))}: the request fails with {rep["other"]}',
+                                   'case': rc, 'detail': {'clause': 'total:do-reply'}})
+
+
+# ---------------------------------------------------------------------------------------------
+# the error-text helper of the refusal path
+# ---------------------------------------------------------------------------------------------
+def _text_outcome(f):
+    try:
+        return {'ok': f()}
+    except Exception as e:
+        return {'other': type(e).__name__}
+
+
+def helper_candidate(case):
+    if 'recipe' in case:
+        return gen.subst(dtcodec.json_to_py(case['base']), tuple(case['path']), gen.build_big(case['recipe']))
+    return dtcodec.json_to_py(case['cand'])
+
+
+def eval_helper(case):
+    """`shortrepr` (the helper that builds the value part of every bad-value message of the scalar types) on the candidate
+    of a case; `repr(candidate)` is the external call of the model"""
+    from frappy.datatypes import shortrepr
+    cand = helper_candidate(case)
+    rp = _text_outcome(lambda: repr(cand))
+    out = _text_outcome(lambda: shortrepr(cand))
+    for o in (rp, out):
+        if 'ok' in o and not (isinstance(o['ok'], str) and not dtcodec.has_surrogate(o['ok'])):
+            o['ok'], o['unencodable'] = '', True
+    return {'p': 'C01', 'k': 'helper', 'repr': rp, 'tname': type(cand).__name__, 'out': out}, out
+
+
+def helper_stream(ctx, res, cases, sizecases, nsample):
+    """the helper on every candidate of unusual size and on a sample of the others: model `shortrepr` against the real
+    function (texts compared), monitor `judgeHelper` (a text for every candidate)"""
+    try:
+        from frappy.datatypes import shortrepr  # noqa: F401
+    except ImportError:
+        res.notes.append('frappy.datatypes.shortrepr does not exist: helper stream skipped')
+        return
+    pool = [dict(c, mode='helper') for c, stream in cases if stream == 'size']
+    if len(pool) > 4 * nsample:
+        pool = ctx.rng.sample(pool, 4 * nsample)
+    others = [dict(c, mode='helper') for c, stream in cases if stream not in ('size', 'corpus')]
+    pool += ctx.rng.sample(others, min(len(others), nsample))
+    pool += [dict(sc, mode='helper') for sc in sizecases]
+    reqs, meta = [], []
+    for hc in pool:
+        req, out = eval_helper(hc)
+        reqs.append(req)
+        meta.append((hc, req, out))
+    for (hc, req, out), ans in zip(meta, ctx.driver.batch(reqs)):
+        if 'driver_error' in ans:
+            raise RuntimeError(f'driver error {ans} on the helper case {json.dumps(hc)[:400]}')
+        res.evaluations += 1
+        res.traces += 1
+        res.count('stream=helper(error text)')
+        res.count('helper.repr=' + ('ok' if 'ok' in req['repr'] else req['repr']['other']))
+        small = {k: v for k, v in hc.items() if k in ('tree', 'mode', 'cand', 'prev', 'base', 'path', 'recipe')}
+        if ctx.model_ok and not req['repr'].get('unencodable') and not out.get('unencodable') and ans['model'] != out:
+            res.disagreements.append({'case': small, 'model': ans['model'], 'impl': out})
+        for clause in ans['judge']:
+            res.violations.append({'sig': 'C01:' + clause + ':' + req['tname'] + ':' + out.get('other', ''),
+                                   'what': f'{clause}: shortrepr({shortened(helper_candidate(hc), 120)}) raised {out.get("other")} '
+                                           f'(a {req["tname"]}; repr: {"ok" if "ok" in req["repr"] else req["repr"]["other"]})',
+                                   'case': small, 'detail': {'clause': clause}})
 
 
 # ---------------------------------------------------------------------------------------------
@@ -564,7 +840,7 @@ def signature(clause, case, impl):
 
 
 def describe(case, impl):
-    dt = dtcodec.tree_to_dt(case['tree'])
+    dt = show_dt(case['tree'])
     cand = dtcodec.json_to_py(case['cand'])
     prev = dtcodec.json_to_py(case['prev']) if case['prev'] is not None else None
 
@@ -573,11 +849,22 @@ def describe(case, impl):
             return repr(dtcodec.json_to_py(o['ok']))
         return json.dumps(o)
     what = ', '.join(f'{k}={show(v)}' for k, v in impl.items() if v is not None)
-    return f'{dt!r} {case["mode"]} candidate={cand!r} previous={prev!r}: {what}'
+    return f'{dt} {case["mode"]} candidate={shortened(cand)} previous={shortened(prev)}: {what}'
 
 
 # ---------------------------------------------------------------------------------------------
 def run(ctx):
+    # a run keeps all its cases (millions of small lists and dicts in the thorough tier) until the end: the cyclic
+    # garbage collector would traverse them again and again for nothing (no cycles are created here)
+    import gc
+    gc.disable()
+    try:
+        return _run(ctx)
+    finally:
+        gc.enable()
+
+
+def _run(ctx):
     res = Result()
     res.rule = ('(tree, candidate, previous) triples on the real datatype classes (built by the constructors; a share rebuilt by '
                 'get_datatype): import_value + validate(previous) for JSON candidates, validate(previous) for Python candidates, '
@@ -585,7 +872,10 @@ def run(ctx):
                 'every position), boundary (limits, tolerance band, NaN/inf, huge ints), shape (lengths, arity, members, None). '
                 'length (code-point counts at the limits in ASCII and in characters whose length differs in bytes / UTF-16 units / '
                 'after normalisation), relative (built from the value held), node (the wire cases of a share of the trees as '
-                '`change` requests to a real SecNode).  '
+                '`change` requests to a real SecNode), size (objects / arrays / strings / bytes / ints of many members / elements / '
+                'characters / digits and deep nesting at every position; recipes judged for totality only where the value cannot '
+                'travel as text), command result (every candidate of a tree + a no-answer catalogue as the return value of command '
+                'functions: Command.do and the do request), helper (shortrepr on the candidates, texts compared with the model).  '
                 'Non-trivial = accepted by validate, or a container candidate of the right container kind that is rejected (the '
                 'rejection comes from a length or from below the root); for a change request: accepted')
     rng = ctx.rng
@@ -596,15 +886,19 @@ def run(ctx):
     ntrees = max(20, total // per_tree)
 
     cases = []
+    surrogates = []
+    oddprev = []
+    sizecases = []      # candidates that cannot travel as JSON text (recipes)
     for c in load_corpus(ctx):
-        cases.append((c, 'corpus'))
+        if c.get('mode') == 'size':
+            sizecases.append(c)
+        else:
+            cases.append((c, 'corpus'))
     trees = gen.all_kind_trees(rng, maxdepth) + gen.length_limited_trees(rng, max(16, ntrees // 12)) + \
         gen.extreme_scaled_trees(rng, max(6, ntrees // 30))
     while len(trees) < ntrees:
         d = rng.choice([1, 2, 2, 3, 3, 3] + ([4, 5] if big else []))
         trees.append(gen.gen_tree(rng, min(d, maxdepth)))
-    surrogates = []
-    oddprev = []
     for tree0 in trees:
         try:
             dt, tree = build_dt(tree0)
@@ -623,7 +917,7 @@ def run(ctx):
         for k in set(dtcodec.tree_kinds(tree)):
             res.count('tree.contains=' + k)
         real = via_get_datatype(dt) if via else dt
-        for mode, stream, cand, prev in make_cases(rng, tree, per_tree, big):
+        for mode, stream, cand, prev in make_cases(rng, tree, per_tree, big, sizecases):
             if mode == 'wire' and not dtcodec.is_json_value(cand):
                 mode = 'py'
             if prev is not None and rng.random() < 0.35:
@@ -734,6 +1028,9 @@ def run(ctx):
     # ---------- the same wire cases as `change` requests through a real node (glue: dispatcher + write wrapper) ----------
     node_stream(ctx, res, cases, ctx.budget(40, 400))
 
+    # ---------- the error-text helper of the refusal path on candidates of every size ----------
+    helper_stream(ctx, res, cases, sizecases, ctx.budget(300, 3000))
+
     # ---------- re-test of the float laws on the doubles drawn (a test of the trusted base, not a proof) ----------
     law_test(ctx, res, cases)
 
@@ -760,6 +1057,24 @@ def run(ctx):
             res.violations.append({'sig': 'C01:total:unmodelled-input:' + tree['t'] + ':' + classes,
                                    'what': f'{dtcodec.tree_to_dt(tree)!r} candidate={cand!r}: {enc}',
                                    'case': {'tree': tree, 'mode': 'surrogate', 'cand': json.dumps(cand), 'prev': None}})
+    # ---------- candidates of a size the codec cannot carry (ints beyond the str digit limit, nesting beyond the
+    # recursion limit): totality only ----------
+    reqs, meta = [], []
+    for sc in sizecases:
+        enc = eval_size_case(sc)
+        reqs.append({'p': 'C01', 'k': 'total', 'outs': enc})
+        meta.append((sc, enc))
+    for (sc, enc), ans in zip(meta, ctx.driver.batch(reqs)):
+        res.evaluations += 1
+        res.traces += 1
+        res.count('stream=size(totality only)')
+        res.count('size.unmodelled=' + sc['recipe'][0])
+        if ans.get('judge'):
+            classes = '+'.join(sorted({o['other'] for o in enc if isinstance(o, dict) and 'other' in o}))
+            res.violations.append({'sig': 'C01:total:unmodelled-input:' + sc['tree']['t'] + ':' + classes,
+                                   'what': f'{show_dt(sc["tree"])} candidate of unusual size {sc["recipe"]!r} at '
+                                           f'position {sc["path"]!r} of {dtcodec.json_to_py(sc["base"])!r}: {enc}',
+                                   'case': sc})
     # ---------- previous values of the wrong kind / length (outside the model: totality only) ----------
     reqs, meta = [], []
     for tree, cand, prev in oddprev:
@@ -811,6 +1126,14 @@ def replay(ctx, rp):
         print('candidate:', repr(cand))
         print('impl     :', outs)
         return 1 if any(k == 'other' for k, _ in outs) else 0
+    if case['mode'] == 'size':
+        enc = eval_size_case(case)
+        ans = ctx.driver.batch([{'p': 'C01', 'k': 'total', 'outs': enc}])[0]
+        print('datatype :', show_dt(case['tree']))
+        print('candidate:', 'the value of recipe', case['recipe'], 'at position', case['path'], 'of', repr(dtcodec.json_to_py(case['base'])))
+        print('impl     :', enc, '(import_value [+ validate], validate, __call__)')
+        print('judge    :', ans.get('judge'))
+        return 1 if ans.get('judge') else 0
     if case['mode'] == 'history':
         cn = ChangeNode(dtcodec.tree_to_dt(case['tree']))
         cn.hold(dtcodec.json_to_py(case['held0']))
@@ -829,12 +1152,55 @@ def replay(ctx, rp):
         agree = dtcodec.canon(ans['held']) == dtcodec.canon(final)
         print('model == implementation:', agree)
         return 0 if agree else 1
+    if case['mode'] == 'helper':
+        req, out = eval_helper(case)
+        ans = ctx.driver.batch([req])[0]
+        print('candidate:', shortened(helper_candidate(case)), '(a %s)' % req['tname'])
+        print('repr     :', json.dumps(req['repr'])[:200])
+        print('impl     :', json.dumps(out)[:200], '(shortrepr)')
+        print('model    :', json.dumps(ans.get('model'))[:200])
+        print('judge    :', ans.get('judge'))
+        agree = ans.get('model') == out
+        print('model == implementation:', agree)
+        if rp.get('kind') == 'no-failing-input-found':
+            return 0 if agree else 1
+        return 1 if ans.get('judge') else 0
+    if case['mode'] == 'update':
+        req, out = eval_update(case)
+        ans = ctx.driver.batch([req])[0]
+        print('datatype :', show_dt(case['tree']))
+        print('announceUpdate with:', shortened(dtcodec.json_to_py(case['cand'])))
+        print('impl     :', json.dumps(out)[:600], '(value held afterwards / class of the read error); converted again:', json.dumps(req['again'])[:300])
+        print('model    :', json.dumps(ans.get('model'))[:600])
+        print('judge    :', [cl.replace(':result', ':update') for cl in ans.get('judge', [])], '' if ans.get('wf') else '(tree not WF)')
+        agree = canon_out(ans['model']) == canon_out(out)
+        print('model == implementation:', agree)
+        if rp.get('kind') == 'no-failing-input-found':
+            return 0 if agree else 1
+        return 1 if ans.get('judge') else 0
+    if case['mode'] == 'result':
+        req, out, rep = eval_result(case)
+        ans = ctx.driver.batch([req])[0]
+        print('command  :', case.get('cmd', 'r'), '- result type', show_dt(case['tree']) if req['dt'] is not None else None,
+              '- argument type', 'IntRange(0, 5)' if req['argdt'] else None, '- data', case.get('data'))
+        print('function returns:', shortened(dtcodec.json_to_py(case['cand'])))
+        print('impl     :', json.dumps(out)[:600], '(Command.do); converted again:', json.dumps(req['again'])[:300])
+        print('reply    :', json.dumps(rep), '(class of the reply to the do request)')
+        print('model    :', json.dumps(ans.get('model'))[:600])
+        print('judge    :', ans.get('judge'), '' if ans.get('wf') else '(tree not WF)')
+        agree = canon_out(ans['model']) == canon_out(out)
+        print('model == implementation:', agree)
+        if rp.get('kind') == 'no-failing-input-found':
+            return 0 if agree else 1
+        if case.get('clause') == 'total:do-reply' or (rp.get('detail') or {}).get('clause') == 'total:do-reply':
+            return 1 if isinstance(rep, dict) and 'other' in rep else 0
+        return 1 if ans.get('judge') else 0
     if case['mode'] in ('node', 'do'):
         req, out = eval_change(case) if case['mode'] == 'node' else eval_do(case)
         ans = ctx.driver.batch([req])[0]
-        print('datatype :', repr(dtcodec.tree_to_dt(case['tree'])))
+        print('datatype :', show_dt(case['tree']))
         print('held     :', repr(dtcodec.json_to_py(req['held'])) if req['held'] is not None else '- (do request)')
-        print('data     :', repr(dtcodec.json_to_py(case['cand'])))
+        print('data     :', shortened(dtcodec.json_to_py(case['cand'])))
         print('impl     :', json.dumps(out))
         print('model    :', json.dumps(ans.get('model')))
         print('judge    :', ans.get('judge'), '' if ans.get('wf') else '(tree not WF)')
